@@ -24,7 +24,7 @@ ID = "C17"
 MANIFEST = {
     "technique": "property-based testing (Hypothesis): generated layouts, Form JSON trees and types against an independent datashape printer, a normal-form model of Form JSON and the library's own equality; print/parse round trips through the repository's Lark type parser; the same statements through the Python layer on the _ext emulation; coverage-guided fuzzing (libFuzzer + ASan/UBSan) of Form::fromjson with a fixed-point oracle inside the target",
     "level_text": "Generated-input exploration in seven parts. (A) for generated valid layouts in every physical encoding, with generated parameters, record names, categorical markers and custom typestrs: type(form(a)) prints as type(a) and as an independent printer of the model type written from the documented datashape syntax; depth, regularity and field queries on the Content and on its Form equal those computed from the nested-list type; form(a) survives JSON. (B) Form JSON trees drawn from the whole node grammar (all 14 Form classes, shorthand and generic spellings, identities flags, form keys, parameters holding arbitrary JSON values): the Form read equals the documented normal form (through accessors and through tojson), re-reading its verbose and terse JSON gives an equal Form (Form::equal with every flag, parameters compared by JSON value by the check), printing is a fixed point, the type survives. (M) damaged Form JSON is refused cleanly or, when the Form that was built describes an array class of the library, survives JSON like any other. (C) range slices keep the type string; every element taken out (the C++ result, before the binding boxes it) has the type the array's type promises for its items. (D) types built through the constructors of ak.types are printed, parsed back by ak.types.from_datashape (the repository's Lark parser, imported from /repo/src, running on C++ Type objects) and must come back structurally identical, equal and printing identically; a text that the parser only reads with high_level=True is given to it that way. (P) through the unmodified Python layer on the awkward._ext emulation: ak.type(array) is '<length> * <datashape>', layout.form.type == layout.type, ndim / ak.fields / purelist_isregular agree with the value, ak.forms.Form.fromjson(form.tojson()) == form, array[a:b] keeps the item type, array[i] is a None / number / str / ak.Record / ak.Array of a type the item type promises. (F, thorough tier) libFuzzer on Form::fromjson: clean refusal, or tojson/fromjson fixed point + Form::equal + same type for every accepted form inside the grammar. Held on everything generated outside the recorded known findings.",
-    "level_note": "Trusted: akmodel.typestr (my reading of the datashape documents and of type-grammar.lark), akmodel.forms (my reading of the documented Form JSON defaults), the /verif bridge and the awkward._ext emulation (a re-statement of src/python/{types,forms,content}.cpp, which cannot be compiled here: what pickling of forms/types or box()/unbox() do in the real binding is not observed), the RapidJSON stand-in (number formatting is its own: parameters are compared by value, never by text). Not exercised: Identities objects (only the has_identities flag of forms), NUL characters in strings, NaN/Infinity in parameters, user-defined typestrs in the parse round trip (a typestr hides the structure it stands for), NumpyArray layouts whose buffer format is not the canonical one of their dtype (such forms only come from Form JSON, parts B/M/F), VirtualArray and partitioned layouts (C18), datetime64/timedelta64 layouts (their forms are generated in part B). Forms that Form.fromjson builds but that describe no array class (index widths without a class, a record with two fields of one name, an itemsize that is not the primitive's) are outside the property's quantifier: only required not to crash. atheris on the type parser (DESIGN) is replaced by Hypothesis part D, which generates the printer's image directly.",
+    "level_note": "Trusted: akmodel.typestr (my reading of the datashape documents and of type-grammar.lark), akmodel.forms (my reading of the documented Form JSON defaults), the /verif bridge and the awkward._ext emulation (a re-statement of src/python/{types,forms,content}.cpp, which cannot be compiled here: what pickling of forms/types or box()/unbox() do in the real binding is not observed), the RapidJSON stand-in (number formatting is its own: parameters are compared by value, never by text). Not exercised: Identities objects (only the has_identities flag of forms), U+0000 in names (parameter names, record keys, form keys; it is generated inside parameter values), NaN/Infinity in parameters, user-defined typestrs in the parse round trip (a typestr hides the structure it stands for), NumpyArray layouts whose buffer format is not the canonical one of their dtype (such forms only come from Form JSON, parts B/M/F), VirtualArray and partitioned layouts (C18), datetime64/timedelta64 layouts (their forms are generated in part B). Forms that Form.fromjson builds but that describe no array class (index widths without a class, a record with two fields of one name, an itemsize that is not the primitive's) are outside the property's quantifier: only required not to crash. atheris on the type parser (DESIGN) is replaced by Hypothesis part D, which generates the printer's image directly.",
 }
 RULE = ("case = one of: (A) layout description + parameter decoration + custom typestrs + probe keys; (B) Form JSON tree; (M) damaged Form JSON text; "
         "(C)/(P) layout + custom typestrs + ranges; (D) extended model type (+ length for ArrayType); (F) one libFuzzer campaign (counted as fuzz_executions, not "
@@ -33,7 +33,7 @@ RULE = ("case = one of: (A) layout description + parameter decoration + custom t
 ASSUMPTIONS = [
     "parameter texts are compared as JSON values (1 == 1.0); the stand-in's number formatting is never asserted",
     "identities objects are not generated (has_identities flags of forms are)",
-    "strings never contain NUL; parameters never contain NaN/Infinity (not JSON)",
+    "names of parameters, record keys, form keys and record names never contain U+0000 (string values inside parameters and keys of nested objects do); parameters never contain NaN/Infinity (not JSON)",
     "minmax_depth/branch_depth are not compared for types containing a record without fields, numfields not for unions (the documents do not define them)",
     "a decimal position used as a key of a record with named fields (\"1\" on {x, y}) is accepted by the library; the documents do not say either way, so haskey/fieldindex are only compared between Content and Form there",
     "part D does not generate user-defined typestrs (a typestr hides the structure it stands for, so it cannot be parsed back by design)",
@@ -1035,24 +1035,12 @@ def _d_text(case):
     return TS.show_array(T, case["length"]) if case["length"] is not None else TS.show(T)
 
 
-def _d_high_level(case, f):
-    """whether the text of a part-D case is parsed with high_level=True: an ArrayType, or a spelling the parser only reads that way"""
-    return case["length"] is not None or bool(f & {"categorical", "option_bracket", "named_record"})
-
-
-def known_typeparser_highlevel_regular(case, vio):
-    """from_datashape(text, high_level=True) turns every `n * T` into an ArrayType, not only the outermost one"""
-    if case["part"] != "D" or vio["bucket"] not in ("D:not_equal", "D:structure"):
+def known_typeparser_toplevel_regular(case, vio):
+    """a RegularType at the top of a type whose text needs high_level=True comes back as an ArrayType (the only other call asserts)"""
+    if case["part"] != "D" or vio["bucket"] != "D:structure" or case["length"] is not None:
         return False
     f = d_features(case, _d_text(case))
-    return _d_high_level(case, f) and bool(f & {"regular_bare", "regular_bare_top"}) and "regular vs array" in vio["message"]
-
-
-def known_typeparser_categorical_regular(case, vio):
-    """`categorical[type=n * T]` is parsed as `n * categorical[type=T]`: regular_inparm hands the categorical flag to its content"""
-    if case["part"] != "D" or vio["bucket"] not in ("D:reprint", "D:not_equal", "D:structure"):
-        return False
-    return "categorical_regular_bare" in d_features(case, _d_text(case))
+    return "regular_bare_top" in f and bool(f & {"categorical", "option_bracket", "named_record"}) and vio["message"].endswith("type: regular vs array")
 
 
 def known_typeparser_grammar_gaps(case, vio):
@@ -1085,8 +1073,7 @@ def known_typeparser_json_literals(case, vio):
 
 KNOWN = {
     "numpyform_format_lost": known_numpyform_format,
-    "typeparser_highlevel_regular": known_typeparser_highlevel_regular,
-    "typeparser_categorical_regular": known_typeparser_categorical_regular,
+    "typeparser_toplevel_regular": known_typeparser_toplevel_regular,
     "typeparser_grammar_gaps": known_typeparser_grammar_gaps,
     "typeparser_json_literals": known_typeparser_json_literals,
 }
